@@ -138,7 +138,10 @@ def run_branch(logic: Logic, body, m, outvar, invars, tvars, arr='self.c', junk=
                 written.add(t)
                 info['calls'].append(('copy', t, s))
                 continue
-            raise ModelError(f'{m}-valued branch: unrecognised store {norm(st)[:80]}')
+            from .core import DefiniteShapeError
+            raise DefiniteShapeError('comp', 'logic_sim', 'LogicSim.c_prop', norm(st)[:120],
+                                     f'{m}-valued dispatch branch: `{norm(st)[:100]}` is not a call of a documented bit-parallel operator (logic.bp{m}v_*) nor a whole-location copy: '
+                                     f'the branch is no longer a composition of the documented operators', getattr(st, 'lineno', 0))
         if isinstance(st, ast.Expr) and isinstance(st.value, ast.Call):
             c = st.value
             name = call_name(c) or ''
